@@ -99,6 +99,7 @@ func props() map[string]Prop {
 		{
 			ID: "C01", Level: "exploration",
 			Units: []Unit{
+				{Name: "conc", Pkg: "internal/upload", Harness: "internal_upload", Run: "^TestVerifUploadConc$", Instrument: uploadInstr, Timeout: 30 * time.Minute},
 				{Name: "faults", Pkg: "internal/upload", Harness: "internal_upload", Run: "^TestVerifC05Upload$", Instrument: append(append([]string{}, uploadInstr...), "internal/counter"), Timeout: 30 * time.Minute},
 				{Name: "seq", Pkg: "internal/upload", Harness: "internal_upload", Run: "^TestVerifUploadSeq$", Instrument: uploadInstr, Timeout: 30 * time.Minute},
 				{Name: "public", Pkg: "internal/upload", Harness: "internal_upload", Run: "^TestVerifC01Public$", Instrument: uploadInstr, Timeout: 30 * time.Minute},
